@@ -1,6 +1,11 @@
 """C15 bounded run-time tier: Field.norm (getter / setter), Field.orientation, Field(..., norm=...)
 against per-cell oracles computed in extended precision from the property statement.
-Bounded: meshes of 1-4 dimensions with <= 5 cells per axis, 1-4 components, lengths 1e-6..1e150 + exact zeros."""
+Bounded: meshes of 1-4 dimensions with <= 5 cells per axis, 1-4 components, lengths 1e-6..1e150 + exact zeros.
+Field dtypes: float64 (default), float32, complex128, complex64, int64, int32 (given with dtype= or inferred from the
+value array); the Euclidean length of a complex vector is sqrt(sum_l |z_l|^2) = sqrt(sum_l re_l^2 + im_l^2), a real
+number >= 0; "unchanged direction" of a complex vector means new = (t/|old|) * old with a REAL positive factor, i.e.
+real and imaginary part of every component are scaled alike (phases kept).  "ulp" always refers to the precision of
+the field's dtype (2^-52 for float64 / complex128 / integer fields, 2^-23 for float32 / complex64)."""
 import numpy as np
 import discretisedfield as df
 from .common import raises
@@ -8,31 +13,65 @@ from .common import raises
 PROPERTY = "C15"
 EPS = np.finfo(float).eps
 CLAUSES = {
-    "C15.length": "after `f.norm = t` every cell whose vector was non-zero has length t(cell) (8 ulp of t; exactly |t| for one-component fields); the array stays finite",
-    "C15.direction": "after `f.norm = t` (t != 0) every component equals old_i/|old| * t (8 ulp of that component), i.e. the direction is unchanged incl. signs and zero components",
+    "C15.length": "after `f.norm = t` every cell whose vector was non-zero has length t(cell) (8 ulp of t; exactly |t| rounded to the field dtype for real one-component fields); the array stays finite, keeps its shape",
+    "C15.direction": "after `f.norm = t` (t != 0) every component equals old_i/|old| * t (8 ulp of that component; real and imaginary part separately for complex fields), i.e. the direction is unchanged incl. signs, complex phases and zero components",
     "C15.zero_stays_zero": "cells whose vector was exactly zero are exactly zero after the norm is set (no NaN/inf), whatever t; cells with t == 0 become exactly zero",
-    "C15.norm_values": "f.norm.array[cell] == sqrt(sum_i v_i^2) (4 ulp; == |v| exactly for one-component fields), shape (*n, 1)",
+    "C15.norm_values": "f.norm.array[cell] == sqrt(sum_i |v_i|^2) (4 ulp; == |v| exactly for real / integer one-component fields), shape (*n, 1)",
+    "C15.norm_real": "f.norm is real and non-negative for every field dtype: its array has a floating (never complex / integer) dtype, all entries >= 0, zero exactly in zero cells",
     "C15.norm_meta": "f.norm is a Field with nvdim 1 on the same mesh (equal, dims/units included), the field's unit and the field's validity mask",
-    "C15.orientation": "orientation: o_i == v_i/|v| (4 ulp per component) and | |o| - 1 | <= 4 eps wherever |v| > 1e-8; exactly zero where |v| <= 1e-8 (exact zeros and sub-threshold lengths); same mesh and nvdim",
-    "C15.orientation_times_norm": "(f.orientation * f.norm).array == f.array (4 ulp per component) for lengths in 1e-6..1e150 and exact zeros",
+    "C15.orientation": "orientation: o_i == v_i/|v| (4 ulp per component; real and imaginary part separately for complex fields) and | |o| - 1 | <= 4 eps wherever |v| > 1e-8; exactly zero where |v| <= 1e-8 (exact zeros and sub-threshold lengths); same mesh and nvdim; defined for every field dtype (an integer field has a floating orientation)",
+    "C15.orientation_times_norm": "(f.orientation * f.norm).array == f.array (4 ulp per component; real and imaginary part separately for complex fields) for lengths in 1e-6..1e150 and exact zeros",
     "C15.no_reapply": "after `f.norm = t`, `f.update_field_values(w)` / `f.array = w` store w exactly (the earlier norm is not re-applied) and f.norm reports |w|",
-    "C15.constructor_order": "Field(mesh, nvdim, value=v, norm=t, valid='norm'): values first, then the norm (array == v/|v|*t as for the setter), then validity from the *normalised* values (valid == (|result| > 1e-8))",
-    "C15.spec_forms": "constant, per-cell array (*n,1) or (*n,), function of position and Field give the same result as the equivalent per-cell array",
+    "C15.constructor_order": "Field(mesh, nvdim, value=v, norm=t, valid='norm'[, dtype=d]): values first, then the norm (array == v/|v|*t as for the setter), then validity from the *normalised* values (valid == (|result| > 1e-8))",
+    "C15.spec_forms": "constant, per-cell array (*n,1) or (*n,), function of position and Field - with float64, float32 or integer entries - give the same result as the equivalent per-cell float64 array",
+    "C15.dtype_kept": "`f.norm = t` and Field(..., dtype=d, norm=t) keep the dtype of f.array (complex stays complex, float32 stays float32, a declared dtype is the array's dtype); an INTEGER field cannot hold v/|v|*t in general: there the assignment either satisfies the clauses above or is refused with TypeError / ValueError leaving array and dtype bit-identical (no silent truncation)",
 }
 RULE = ("seeded fields: mesh 1-4 dimensions, 1..5 cells per axis, random geometry scale; 1-4 components; per cell a random direction (normal, "
         "axis-aligned with zero components, or sign-only for scalars) times a length log-uniform in [1e-6, 1e150] (end points included in some cells), "
         "a seeded fraction of exactly-zero cells (also all-zero and no-zero fields); target norms: constant, per-cell array (both shapes), function of "
         "position (per-cell table looked up from the point), Field; targets log-uniform in [1e-6, 1e150], optionally zero in places; kinds: set (setter), "
         "get (getter, orientation, product, metadata with unit/valid mask), update (no re-application), ctor (constructor order), threshold "
-        "(orientation around the 1e-8 threshold: lengths 1e-100..9e-9 and 1.2e-8..1e-7); trivial = field without any non-zero cell; distinct by (kind, params)")
+        "(orientation around the 1e-8 threshold: lengths 1e-100..9e-9 and 1.2e-8..1e-7). All kinds are enumerated a second time over the field dtype: "
+        "complex128, complex64 (complex normal directions, axis-aligned with a phase in {1,-1,i,-i,random}, circularly polarised cells (a, +-i a, 0..) whose "
+        "plain squares cancel, purely real / purely imaginary components), float32 (lengths and targets 1e-6..1e18 for the 32-bit types so that squares stay "
+        "in range), int64 / int32 (small, medium and large integer components), each with dtype= given or inferred from the value array, and over the dtype "
+        "of the target norm (float64, float32, integer; all five forms); trivial = field without any non-zero cell; distinct by (kind, params)")
 ASSUMPTIONS = [
     "bounded: <= 5 cells per axis, 1-4 dimensions, 1-4 components, seeded data",
-    "lengths restricted to {0} U [1e-6, 1e150] as in the property (threshold kind: down to 1e-100 for the orientation clause only); real float64 fields",
-    "oracle in numpy longdouble (falls back to double where longdouble == double; squares do not overflow in the stated range)",
+    "lengths restricted to {0} U [1e-6, 1e150] as in the property (threshold kind: down to 1e-100 for the orientation clause only); for float32 / complex64 "
+    "fields {0} U [1e-6, 1e18] (squares must not under/overflow in the field's own precision; threshold kind down to 1e-30)",
+    "field dtypes float64, float32, complex128, complex64, int64, int32; float16 / longdouble / bool / object fields are not exercised",
+    "integer fields: a clean refusal (TypeError / ValueError, field untouched) of a norm assignment is accepted, because an integer array cannot hold "
+    "v/|v|*t; getter, orientation and product are demanded in full",
+    "with dtype= omitted the array dtype the constructor infers from the value array is taken as found (that is C02's subject); the clauses are then stated "
+    "for that dtype",
+    "oracle in numpy longdouble on real and imaginary parts separately (falls back to double where longdouble == double; squares do not overflow in the stated range)",
     "lengths within 20% of the 1e-8 orientation threshold are not sampled",
-    "negative / NaN target norms and dict (subregion) norm specifications are not exercised",
+    "negative / NaN / complex target norms and dict (subregion) norm specifications are not exercised",
 ]
 LD = np.longdouble
+EPS32 = float(np.finfo(np.float32).eps)
+# field dtype profiles: numpy dtype, ulp unit, complex?, integer?, decimal exponent range of the lengths
+DTYPES = {
+    "float64": {"dt": np.float64, "eps": EPS, "cplx": False, "int": False, "lo": -6.0, "hi": 150.0, "tlo": -100.0},
+    "float32": {"dt": np.float32, "eps": EPS32, "cplx": False, "int": False, "lo": -6.0, "hi": 18.0, "tlo": -30.0},
+    "complex128": {"dt": np.complex128, "eps": EPS, "cplx": True, "int": False, "lo": -6.0, "hi": 150.0, "tlo": -100.0},
+    "complex64": {"dt": np.complex64, "eps": EPS32, "cplx": True, "int": False, "lo": -6.0, "hi": 18.0, "tlo": -30.0},
+    "int64": {"dt": np.int64, "eps": EPS, "cplx": False, "int": True, "lo": 0.0, "hi": 15.0, "tlo": None},
+    "int32": {"dt": np.int32, "eps": EPS, "cplx": False, "int": True, "lo": 0.0, "hi": 9.0, "tlo": None},
+}
+
+
+def _prof(pr):
+    return DTYPES[pr.get("dtype", "float64")]
+
+
+def _prof_of(arr):
+    """profile of the dtype an array actually has (None: a dtype this module does not model)"""
+    for p in DTYPES.values():
+        if np.dtype(p["dt"]) == arr.dtype:
+            return p
+    return None
 
 
 # ---------------------------------------------------------------------------------- enumeration
@@ -71,6 +110,54 @@ def cases(ctx):
     yield "get", {"n": [4, 3], "scale": 1e-9, "nvdim": 4, "zero_frac": 0.3, "dirs": "mixed", "seed": 3, "unit": "A/m", "mask": True}
     yield "ctor", {"n": [3, 2, 2], "scale": 5e-9, "nvdim": 3, "zero_frac": 0.3, "dirs": "normal", "seed": 4, "form": "callable", "target_zeros": True}
 
+    # ---- the same kinds over the dtype of the field (and of the target norm)
+    dreps = 6 if ctx.tier == "quick" else 60
+    tdts = ["float64", "int", "float32"]
+    kinds = ["get", "set", "update", "ctor", "threshold"]
+    for dname in ("complex128", "complex64", "float32", "int64", "int32"):
+        for ndim in (1, 2, 3, 4):
+            for nv in (1, 2, 3, 4):
+                for _ in range(dreps):
+                    j += 1
+                    hi = 5 if ndim <= 2 else (4 if ndim == 3 else 3)
+                    n = rng.integers(1, hi + 1, size=ndim).tolist()
+                    base = {"n": n, "scale": float(10.0 ** rng.uniform(-9, 3)), "nvdim": nv,
+                            "zero_frac": [0.0, 0.3, 0.15, 0.6, 0.3, 0.0, 0.6, 1.0][int(rng.integers(8))] if j % 11 else 0.3,
+                            "dirs": ["normal", "axis", "mixed"][int(rng.integers(3))],
+                            "seed": int(rng.integers(1 << 30)),
+                            "dtype": dname, "declare": bool(rng.integers(4) != 0)}
+                    form = forms[j % len(forms)]
+                    tdt = tdts[int(rng.integers(3))]
+                    # getter / orientation / product for every field, plus one of the mutating kinds
+                    yield "get", dict(base, unit=[None, "A/m", "T"][int(rng.integers(3))], mask=bool(rng.integers(2)))
+                    k = kinds[1 + j % 4]
+                    if k == "threshold" and DTYPES[dname]["int"]:
+                        k = "set"
+                    if k == "set":
+                        yield "set", dict(base, form=form, target_zeros=bool(rng.integers(2)), tdtype=tdt)
+                    elif k == "update":
+                        yield "update", dict(base, form=form, tdtype=tdt)
+                    elif k == "ctor":
+                        yield "ctor", dict(base, form=form, target_zeros=True, tdtype=tdt)
+                    else:
+                        yield "threshold", dict(base)
+    # target dtype for the default float64 field
+    for i in range(10 if ctx.tier == "quick" else 100):
+        for tdt in ("int", "float32"):
+            j += 1
+            ndim = 1 + i % 4
+            base = {"n": rng.integers(1, 4, size=ndim).tolist(), "scale": float(10.0 ** rng.uniform(-9, 3)), "nvdim": 1 + (i // 4) % 4,
+                    "zero_frac": 0.3, "dirs": "normal", "seed": int(rng.integers(1 << 30)), "dtype": "float64", "declare": bool(i % 2)}
+            yield "set", dict(base, form=forms[j % len(forms)], target_zeros=bool(rng.integers(2)), tdtype=tdt)
+    # fixed corner cases: circular polarisation (2, 2i, 0): plain squares sum to zero, length sqrt(8)
+    yield "get", {"n": [4, 2, 1], "scale": 1.0, "nvdim": 3, "zero_frac": 0.3, "dirs": "circular", "seed": 5, "dtype": "complex128", "declare": True, "unit": "T", "mask": False}
+    yield "set", {"n": [4, 2, 1], "scale": 1.0, "nvdim": 3, "zero_frac": 0.3, "dirs": "circular", "seed": 6, "dtype": "complex128", "declare": True, "form": "const",
+                  "target_zeros": False, "tdtype": "float64"}
+    yield "set", {"n": [3, 2], "scale": 1e-9, "nvdim": 2, "zero_frac": 0.15, "dirs": "circular", "seed": 7, "dtype": "complex64", "declare": True, "form": "callable",
+                  "target_zeros": False, "tdtype": "float64"}
+    yield "ctor", {"n": [5], "scale": 1.0, "nvdim": 1, "zero_frac": 0.3, "dirs": "normal", "seed": 8, "dtype": "complex128", "declare": True, "form": "array",
+                   "target_zeros": True, "tdtype": "float64"}
+
 
 # ---------------------------------------------------------------------------------- construction
 def _mesh(pr, rng):
@@ -81,19 +168,41 @@ def _mesh(pr, rng):
     return df.Mesh(p1=tuple(p1), p2=tuple(p1 + np.array(n) * cell), n=tuple(n))
 
 
-def _lengths(rng, shape):
-    L = 10.0 ** rng.uniform(-6, 150, size=shape)
+def _lengths(rng, shape, lo=-6.0, hi=150.0):
+    if (lo, hi) == (-6.0, 150.0):
+        L = 10.0 ** rng.uniform(-6, 150, size=shape)
+        pins = [1e-6, 1e150, 1.0, 1e-6, 1e150]
+    else:
+        L = 10.0 ** rng.uniform(lo + 0.01, hi - 0.01, size=shape)
+        pins = [10.0 ** (lo + 0.01), 10.0 ** (hi - 0.01), 1.0, 10.0 ** (lo + 0.01), 10.0 ** (hi - 0.01)]
     flat = L.reshape(-1)
     # pin the end points and a mid value in some cells
-    pins = [1e-6, 1e150, 1.0, 1e-6, 1e150]
     for i in range(min(len(flat), 2)):
         if rng.integers(2):
             flat[rng.integers(len(flat))] = pins[int(rng.integers(len(pins)))]
     return L
 
 
+def _zero_cells(pr, rng, v):
+    N = v.shape[0]
+    zf = pr["zero_frac"]
+    if zf >= 1.0:
+        v[:] = 0
+    elif zf > 0:
+        z = rng.uniform(size=N) < zf
+        if N > 1 and not z.any():
+            z[int(rng.integers(N))] = True
+        if z.all() and N > 1:
+            z[int(rng.integers(N))] = False
+        v[z] = 0
+    return v
+
+
 def _values(pr, rng):
-    """(*n, nv) array: direction * length, some cells exactly zero"""
+    """(*n, nv) array in the dtype of the case: direction * length, some cells exactly zero"""
+    prof = _prof(pr)
+    if pr.get("dtype", "float64") != "float64":
+        return _values_dt(pr, rng, prof)
     n, nv = list(pr["n"]), pr["nvdim"]
     N = int(np.prod(n))
     d = rng.normal(size=(N, nv))
@@ -113,22 +222,86 @@ def _values(pr, rng):
     v[over] *= (1 - 4 * EPS)
     under = np.asarray(ln < LD(1e-6)).nonzero()[0]
     v[under] *= (1 + 4 * EPS)
-    zf = pr["zero_frac"]
-    if zf >= 1.0:
-        v[:] = 0.0
-    elif zf > 0:
-        z = rng.uniform(size=N) < zf
-        if N > 1 and not z.any():
-            z[int(rng.integers(N))] = True
-        if z.all() and N > 1:
-            z[int(rng.integers(N))] = False
-        v[z] = 0.0
-    return v.reshape(*n, nv)
+    return _zero_cells(pr, rng, v).reshape(*n, nv)
+
+
+def _values_dt(pr, rng, prof):
+    n, nv = list(pr["n"]), pr["nvdim"]
+    N = int(np.prod(n))
+    dirs = pr["dirs"]
+    if prof["int"]:
+        style = rng.integers(0, 3, size=(N, 1))
+        small = rng.integers(-3, 4, size=(N, nv))
+        medium = rng.integers(-1000, 1001, size=(N, nv))
+        big = (rng.choice([-1, 1], size=(N, nv)) * np.floor(10.0 ** rng.uniform(prof["lo"], prof["hi"], size=(N, nv)))).astype(np.int64)
+        v = np.where(style == 0, small, np.where(style == 1, medium, big)).astype(np.int64)
+        if dirs in ("axis", "mixed"):
+            sel = np.ones(N, bool) if dirs == "axis" else rng.integers(0, 2, size=N).astype(bool)
+            keep = np.zeros((N, nv), bool)
+            keep[np.arange(N), rng.integers(0, nv, size=N)] = True
+            v[sel] = np.where(keep, v, 0)[sel]
+        return _zero_cells(pr, rng, v).astype(prof["dt"]).reshape(*n, nv)
+    if prof["cplx"]:
+        d = rng.normal(size=(N, nv)) + 1j * rng.normal(size=(N, nv))
+        # some purely real / purely imaginary components
+        pure = rng.integers(0, 4, size=(N, nv))
+        d = np.where(pure == 0, d.real + 0j, np.where(pure == 1, 1j * d.imag, d))
+        theta = rng.uniform(0, 2 * np.pi, size=N)
+        phases = np.stack([np.ones(N, complex), -np.ones(N, complex), 1j * np.ones(N), -1j * np.ones(N), np.exp(1j * theta)])
+        ph = phases[rng.integers(0, 5, size=N), np.arange(N)]
+    else:
+        d = rng.normal(size=(N, nv))
+        ph = rng.choice([-1.0, 1.0], size=N)
+    if dirs in ("axis", "mixed", "circular"):
+        sel = rng.integers(0, 2, size=N).astype(bool) if dirs == "mixed" else np.ones(N, bool)
+        e = np.zeros((N, nv), dtype=d.dtype)
+        ax = rng.integers(0, nv, size=N)
+        e[np.arange(N), ax] = ph
+        circ = np.zeros(N, bool)
+        if prof["cplx"] and nv >= 2:
+            # circularly polarised cells: (a, +-i a) on two different axes; sum of plain squares is 0
+            circ = np.ones(N, bool) if dirs == "circular" else rng.integers(0, 2, size=N).astype(bool)
+            ax2 = (ax + 1 + rng.integers(0, nv - 1, size=N)) % nv
+            c = e.copy()
+            c[np.arange(N), ax2] = ph * rng.choice([1j, -1j], size=N)
+            e[circ] = c[circ]
+        d[sel] = e[sel]
+    # normalise in extended precision (real and imaginary parts), scale, round to the field dtype
+    re, im = np.real(d).astype(LD), np.imag(d).astype(LD)
+    nrm = np.sqrt(np.sum(re * re + im * im, axis=1, keepdims=True))
+    L = _lengths(rng, (N, 1), prof["lo"], prof["hi"]).astype(LD)
+    re, im = re / nrm * L, im / nrm * L
+    if prof["cplx"]:
+        v = (np.asarray(re, dtype=float) + 1j * np.asarray(im, dtype=float)).astype(prof["dt"])
+    else:
+        v = np.asarray(re, dtype=float).astype(prof["dt"])
+    # keep |v| within [10^lo, 10^hi] after rounding to the field dtype
+    ln = _len_ld(v)[..., 0]
+    over = np.asarray(ln > LD(10.0) ** LD(prof["hi"])).nonzero()[0]
+    v[over] *= prof["dt"](1 - 4 * prof["eps"])
+    under = np.asarray(ln < LD(10.0) ** LD(prof["lo"])).nonzero()[0]
+    v[under] *= prof["dt"](1 + 4 * prof["eps"])
+    return _zero_cells(pr, rng, v).reshape(*n, nv)
 
 
 def _targets(pr, rng):
+    """per-cell table (*n,1) of target norms as float64 (exactly representable in the target dtype `tdtype`)"""
     n = list(pr["n"])
-    t = _lengths(rng, (*n, 1))
+    prof = _prof(pr)
+    tdt = pr.get("tdtype", "float64")
+    if pr.get("dtype", "float64") == "float64" and tdt == "float64":
+        t = _lengths(rng, (*n, 1))
+    else:
+        lo, hi = (prof["lo"], prof["hi"]) if not prof["int"] else (-6.0, 6.0)
+        if tdt == "int":
+            lo, hi = 0.0, min(hi, 15.0)
+        elif tdt == "float32":
+            hi = min(hi, 37.0)
+        t = _lengths(rng, (*n, 1), lo, hi)
+        if tdt == "int":
+            t = np.maximum(np.floor(t), 1.0)
+        elif tdt == "float32":
+            t = t.astype(np.float32).astype(np.float64)
     if pr.get("form") == "const":
         t = np.full((*n, 1), float(t.reshape(-1)[0]))
         if pr.get("target_zeros") and rng.integers(4) == 0:
@@ -142,78 +315,132 @@ def _targets(pr, rng):
     return t
 
 
-def _spec(form, t, mesh):
-    """the norm specification handed to the library for the per-cell table t (*n,1)"""
+def _spec(form, t, mesh, tdt="float64"):
+    """the norm specification handed to the library for the per-cell table t (*n,1), with entries of dtype tdt"""
+    cast = {"float64": np.float64, "float32": np.float32, "int": np.int64}[tdt]
+    scalar = {"float64": float, "float32": np.float32, "int": int}[tdt]
     if form == "const":
-        return float(t.reshape(-1)[0])
+        return scalar(t.reshape(-1)[0])
     if form == "array":
-        return t.copy()
+        return t.astype(cast)
     if form == "array_flat":
-        return t[..., 0].copy()
+        return t[..., 0].astype(cast)
     pmin = np.asarray(mesh.region.pmin, dtype=float)
     cell = np.asarray(mesh.cell, dtype=float)
     n = np.asarray(mesh.n)
 
     def fun(p):
         idx = np.clip(np.floor((np.asarray(p, dtype=float).reshape(-1) - pmin) / cell).astype(int), 0, n - 1)
-        return t[tuple(idx)][0]
+        return scalar(t[tuple(idx)][0])
     if form == "callable":
         return fun
     if form == "field":
-        return df.Field(mesh, nvdim=1, value=t.copy())
+        if tdt == "float64":
+            return df.Field(mesh, nvdim=1, value=t.copy())
+        return df.Field(mesh, nvdim=1, value=t.astype(cast), dtype=cast)
     raise ValueError(form)
 
 
+def _field(pr, mesh, value, **kw):
+    """the field of the case: dtype= given (`declare`) or left to the constructor's inference from the value array"""
+    if pr.get("dtype", "float64") == "float64" and not pr.get("declare"):
+        return df.Field(mesh, nvdim=pr["nvdim"], value=value, **kw)
+    if pr.get("declare", True):
+        return df.Field(mesh, nvdim=pr["nvdim"], value=value, dtype=_prof(pr)["dt"], **kw)
+    return df.Field(mesh, nvdim=pr["nvdim"], value=value, **kw)
+
+
 # ---------------------------------------------------------------------------------- oracles
+def _parts(v):
+    """extended-precision real view: (..., nv, 1) for real arrays, (..., nv, 2) = (re, im) for complex arrays"""
+    a = np.asarray(v)
+    if np.iscomplexobj(a):
+        return np.stack([a.real.astype(LD), a.imag.astype(LD)], axis=-1)
+    return a.astype(LD)[..., None]
+
+
 def _len_ld(v):
-    x = np.asarray(v).astype(LD)
-    return np.sqrt(np.sum(x * x, axis=-1, keepdims=True))
+    """sqrt(sum_i |v_i|^2) = sqrt(sum_i re_i^2 + im_i^2) in extended precision, shape (..., 1)"""
+    x = _parts(v)
+    return np.sqrt(np.sum(x * x, axis=(-1, -2)))[..., None]
 
 
-def _rel_ok(got, want, ulps):
-    """|got - want| <= ulps*eps*|want| elementwise (want in extended precision)"""
-    got = np.asarray(got).astype(LD)
-    want = np.asarray(want).astype(LD)
-    return np.abs(got - want) <= ulps * LD(EPS) * np.abs(want)
+def _scaled(v, factor):
+    """parts of v * factor for a REAL per-cell factor (..., 1) in extended precision"""
+    return _parts(v) * np.asarray(factor).astype(LD)[..., None]
 
 
-def _worst(got, want):
-    got = np.asarray(got).astype(LD)
-    want = np.asarray(want).astype(LD)
+def _rel_ok(got, want_parts, ulps, eps=EPS):
+    """|got - want| <= ulps*eps*|want| elementwise on real and imaginary parts (want: extended precision parts)"""
+    g = _parts(got)
+    if g.shape != want_parts.shape:       # e.g. a complex result where a real one is expected, or vice versa
+        if g.shape[-1] == 2 and want_parts.shape[-1] == 1:
+            want_parts = np.concatenate([want_parts, np.zeros_like(want_parts)], axis=-1)
+        elif g.shape[-1] == 1 and want_parts.shape[-1] == 2:
+            g = np.concatenate([g, np.zeros_like(g)], axis=-1)
+        else:
+            return np.zeros(1, bool)
+    return np.abs(g - want_parts) <= ulps * LD(eps) * np.abs(want_parts)
+
+
+def _worst(got, want_parts, eps=EPS):
+    g = _parts(got)
+    w = np.asarray(want_parts).astype(LD)
+    if g.shape != w.shape:
+        if g.shape[-1] == 2 and w.shape[-1] == 1:
+            w = np.concatenate([w, np.zeros_like(w)], axis=-1)
+        elif g.shape[-1] == 1 and w.shape[-1] == 2:
+            g = np.concatenate([g, np.zeros_like(g)], axis=-1)
+        else:
+            return None
     with np.errstate(all="ignore"):
-        r = np.abs(got - want) / (LD(EPS) * np.abs(want))
-    r = np.where(np.abs(want) == 0, np.where(got == 0, 0, np.inf), r)
+        r = np.abs(g - w) / (LD(eps) * np.abs(w))
+    r = np.where(np.abs(w) == 0, np.where(g == 0, 0, np.inf), r)
     return float(np.max(r)) if r.size else 0.0
 
 
-def _check_after_set(ctx, arr, old, t, what):
-    """clauses length / direction / zero_stays_zero for array `arr` obtained from `old` with per-cell target t (*n,1)"""
+def _check_after_set(ctx, arr, old, t, what, declared=None):
+    """clauses length / direction / zero_stays_zero / dtype_kept for array `arr` obtained from `old` (the array as it was
+    stored before) with per-cell target t (*n,1)"""
     nv = old.shape[-1]
+    prof = _prof_of(old)
+    eps = prof["eps"]
     L = _len_ld(old)
     nz = np.asarray(L[..., 0] != 0)
     tz = np.asarray(t[..., 0] == 0)
-    shape_ok = arr.shape == old.shape and arr.dtype == np.float64
-    ctx.require(shape_ok and bool(np.all(np.isfinite(arr))), "C15.length", "%s: array shape/dtype/finite" % what, shape=arr.shape, dtype=str(arr.dtype))
+    ctx.require(arr.dtype == old.dtype and (declared is None or arr.dtype == np.dtype(declared)), "C15.dtype_kept",
+                "%s: the array dtype changed when the norm was set" % what, before=str(old.dtype), after=str(arr.dtype), declared=str(declared))
+    shape_ok = arr.shape == old.shape
+    ctx.require(shape_ok and bool(np.all(np.isfinite(arr))), "C15.length", "%s: array shape/finite" % what, shape=arr.shape, dtype=str(arr.dtype))
     if not shape_ok:
         return
     # zero cells
-    ctx.require(bool(np.all(arr[~nz] == 0.0)), "C15.zero_stays_zero", "%s: a zero vector did not stay zero" % what, got=arr[~nz][:4])
-    ctx.require(bool(np.all(arr[tz] == 0.0)), "C15.zero_stays_zero", "%s: target norm 0 did not give a zero vector" % what, got=arr[tz][:4])
+    ctx.require(bool(np.all(arr[~nz] == 0)), "C15.zero_stays_zero", "%s: a zero vector did not stay zero" % what, got=arr[~nz][:4])
+    ctx.require(bool(np.all(arr[tz] == 0)), "C15.zero_stays_zero", "%s: target norm 0 did not give a zero vector" % what, got=arr[tz][:4])
     # lengths
     newL = _len_ld(arr)[..., 0]
     tt = t[..., 0].astype(LD)
-    if nv == 1:
-        okl = np.asarray(np.abs(arr[..., 0]) == t[..., 0])
+    if nv == 1 and not np.iscomplexobj(arr) and not np.iscomplexobj(old):
+        with np.errstate(all="ignore"):
+            okl = np.asarray(np.abs(arr[..., 0]) == t[..., 0].astype(old.dtype)) & np.asarray(np.abs(newL - tt) <= 8 * LD(eps) * tt)
     else:
-        okl = np.asarray(np.abs(newL - tt) <= 8 * LD(EPS) * tt)
+        okl = np.asarray(np.abs(newL - tt) <= 8 * LD(eps) * tt)
     ctx.require(bool(np.all(okl[nz])), "C15.length", "%s: length after setting the norm differs from the target" % what,
-                worst_ulps=_worst(newL[nz], tt[nz]), nvdim=nv)
-    # direction: component-wise
+                worst_ulps=_worst(newL[nz][..., None], tt[nz][..., None, None], eps), nvdim=nv, dtype=str(old.dtype),
+                got=np.asarray(newL[nz], dtype=float)[:4], want=np.asarray(tt[nz], dtype=float)[:4])
+    # direction: component-wise, real and imaginary parts scaled by the same real factor t/|old|
     sel = nz & ~tz
     with np.errstate(all="ignore"):
-        want = old.astype(LD) / L * t.astype(LD)
-    ctx.require(bool(np.all(_rel_ok(arr[sel], want[sel], 8))), "C15.direction", "%s: components differ from old/|old|*t" % what,
-                worst_ulps=_worst(arr[sel], want[sel]))
+        want = _scaled(old, t.astype(LD) / L)
+    ctx.require(bool(np.all(_rel_ok(arr[sel], want[sel], 8, eps))), "C15.direction", "%s: components differ from old/|old|*t" % what,
+                worst_ulps=_worst(arr[sel], want[sel], eps), dtype=str(old.dtype), got=arr[sel][:2], old=old[sel][:2])
+
+
+def _refused_cleanly(ctx, r, e, now, before, what):
+    """integer fields: a raised norm assignment must be a TypeError / ValueError that left the array untouched"""
+    ctx.require(isinstance(e, (TypeError, ValueError)) and now.dtype == before.dtype and np.array_equal(now, before), "C15.dtype_kept",
+                "%s: norm assignment on an integer field raised but is not a clean refusal (TypeError/ValueError, array untouched)" % what,
+                sig="int-norm-refusal-not-clean", error=repr(e), before=before.reshape(-1)[:6], after=now.reshape(-1)[:6])
 
 
 # ---------------------------------------------------------------------------------- checks
@@ -221,80 +448,142 @@ def check(kind, pr, ctx):
     rng = np.random.default_rng(pr["seed"])
     mesh = _mesh(pr, rng)
     n, nv = list(pr["n"]), pr["nvdim"]
+    prof = _prof(pr)
+    tdt = pr.get("tdtype", "float64")
+    declared = prof["dt"] if pr.get("declare", "dtype" not in pr) and "dtype" in pr else None
     old = _values(pr, rng)
     if not np.any(old) and kind != "threshold":
         ctx.trivial()
+    if kind == "get":
+        check_get(pr, ctx, mesh, old, rng)
+        return
+    if kind == "threshold":
+        N = int(np.prod(n))
+        lens = np.where(rng.integers(0, 2, size=N).astype(bool), 10.0 ** rng.uniform(prof["tlo"], np.log10(8e-9), size=N),
+                        10.0 ** rng.uniform(np.log10(1.2e-8), -7, size=N))
+        d = rng.normal(size=(N, nv)).astype(LD)
+        di = rng.normal(size=(N, nv)).astype(LD) if prof["cplx"] else LD(0) * d
+        nrm = np.sqrt(np.sum(d * d + di * di, axis=1, keepdims=True))
+        re = np.asarray(d / nrm * lens[:, None].astype(LD), dtype=float)
+        im = np.asarray(di / nrm * lens[:, None].astype(LD), dtype=float)
+        v = ((re + 1j * im) if prof["cplx"] else re).astype(prof["dt"]).reshape(*n, nv)
+        z = rng.uniform(size=N) < 0.2
+        v.reshape(N, nv)[z] = 0
+        f = _field(pr, mesh, v.copy())
+        if not np.array_equal(f.array, v):
+            ctx.trivial()
+            return
+        _check_orientation(ctx, f, f.array.copy(), "threshold")
+        return
+    # ---- mutating kinds: the field as the constructor stores it (dtype declared or inferred)
+    f = _field(pr, mesh, old.copy())
+    stored = f.array.copy()
+    sprof = _prof_of(stored)
+    ok_stored = sprof is not None and stored.shape == old.shape and np.array_equal(stored, old) and (declared is None or stored.dtype == np.dtype(declared))
+    ctx.require(ok_stored, "C15.dtype_kept", "Field(value=array%s) does not store the given values / dtype" % (", dtype=" + pr.get("dtype", "") if declared else ""),
+                sig="ctor-values-not-stored", got=str(stored.dtype), declared=str(declared))
+    if not ok_stored:
+        return
+    integer = sprof["int"]
     if kind == "set":
         t = _targets(pr, rng)
-        f = df.Field(mesh, nvdim=nv, value=old.copy())
-        r, e = raises(Exception, setattr, f, "norm", _spec(pr["form"], t, mesh))
-        ctx.require(not r, "C15.spec_forms", "setting the norm (%s) raised" % pr["form"], sig="norm-setter-raises-" + pr["form"], error=repr(e) if r else None)
+        r, e = raises(Exception, setattr, f, "norm", _spec(pr["form"], t, mesh, tdt))
+        if r and integer:
+            _refused_cleanly(ctx, r, e, f.array, stored, "setter/" + pr["form"])
+            return
+        ctx.require(not r, "C15.spec_forms", "setting the norm (%s, %s entries) raised" % (pr["form"], tdt),
+                    sig="norm-setter-raises-" + pr["form"] + ("" if tdt == "float64" else "-" + tdt), error=repr(e) if r else None)
         if r:
             return
-        _check_after_set(ctx, f.array, old, t, "setter/" + pr["form"])
-        # the same table as a plain (*n,1) array gives the identical result
-        g = df.Field(mesh, nvdim=nv, value=old.copy())
-        g.norm = t.copy()
-        ctx.require(np.array_equal(f.array, g.array), "C15.spec_forms", "norm given as %s differs from the equivalent per-cell array" % pr["form"])
+        _check_after_set(ctx, f.array, stored, t, "setter/" + pr["form"], declared)
+        # the same table as a plain float64 (*n,1) array gives the identical result
+        g = _field(pr, mesh, old.copy())
+        r, e = raises(Exception, setattr, g, "norm", t.copy())
+        ctx.require(not r and np.array_equal(f.array, g.array) and f.array.dtype == g.array.dtype, "C15.spec_forms",
+                    "norm given as %s (%s entries) differs from the equivalent per-cell float64 array" % (pr["form"], tdt), error=repr(e) if r else None)
         # setting it a second time (different target) starts from the current direction, zero stays zero
         t2 = _targets(dict(pr, form="array", target_zeros=False), rng)
         was = f.array.copy()
-        f.norm = t2
-        _check_after_set(ctx, f.array, was, t2, "second setter")
-    elif kind == "get":
-        check_get(pr, ctx, mesh, old, rng)
+        r, e = raises(Exception, setattr, f, "norm", t2)
+        ctx.require(not r, "C15.spec_forms", "setting the norm a second time raised", sig="second-norm-setter-raises", error=repr(e) if r else None)
+        if not r:
+            _check_after_set(ctx, f.array, was, t2, "second setter", declared)
     elif kind == "update":
         t = _targets(dict(pr, target_zeros=False), rng)
-        f = df.Field(mesh, nvdim=nv, value=old.copy())
-        f.norm = _spec(pr["form"], t, mesh)
-        w = _values(dict(pr, zero_frac=0.3), rng)
+        r, e = raises(Exception, setattr, f, "norm", _spec(pr["form"], t, mesh, tdt))
+        if r and integer:
+            _refused_cleanly(ctx, r, e, f.array, stored, "setter before update")
+        else:
+            ctx.require(not r, "C15.spec_forms", "setting the norm (%s, %s entries) raised" % (pr["form"], tdt),
+                        sig="norm-setter-raises-" + pr["form"] + ("" if tdt == "float64" else "-" + tdt), error=repr(e) if r else None)
+            if r:
+                return
+        eps = sprof["eps"]
+        w = _values(dict(pr, zero_frac=0.3), rng).astype(stored.dtype)
         f.update_field_values(w.copy())
-        ctx.require(np.array_equal(f.array, w), "C15.no_reapply", "update_field_values after a norm assignment does not store the given values")
-        ctx.require(bool(np.all(_rel_ok(f.norm.array, _len_ld(w), 4))), "C15.no_reapply", "norm after the update is not |w|")
-        w2 = _values(dict(pr, zero_frac=0.0), rng)
+        # (a field without dtype= infers the array dtype anew from every value it is given, so the dtype is only demanded when declared)
+        dt_ok = (lambda a: declared is None or a.dtype == np.dtype(declared))
+        ctx.require(np.array_equal(f.array, w) and dt_ok(f.array), "C15.no_reapply",
+                    "update_field_values after a norm assignment does not store the given values")
+        ctx.require(bool(np.all(_rel_ok(f.norm.array, _len_ld(w)[..., None], 4, eps))), "C15.no_reapply", "norm after the update is not |w|")
+        w2 = _values(dict(pr, zero_frac=0.0), rng).astype(stored.dtype)
         f.array = w2.copy()
-        ctx.require(np.array_equal(f.array, w2), "C15.no_reapply", "array assignment after a norm assignment does not store the given values")
-        const = tuple(float(x) for x in rng.normal(size=nv)) if nv > 1 else float(rng.normal())
+        ctx.require(np.array_equal(f.array, w2) and dt_ok(f.array), "C15.no_reapply",
+                    "array assignment after a norm assignment does not store the given values")
+        if integer:
+            cv = [int(x) for x in rng.integers(-9, 10, size=nv)]
+        elif sprof["cplx"]:
+            cv = [complex(x, y) for x, y in zip(rng.normal(size=nv), rng.normal(size=nv))]
+        else:
+            cv = [float(x) for x in rng.normal(size=nv)]
+        const = tuple(cv) if nv > 1 else cv[0]
         f.update_field_values(const)
-        ctx.require(np.array_equal(f.array, np.broadcast_to(np.asarray(const, dtype=float), (*n, nv))), "C15.no_reapply",
-                    "constant value after a norm assignment is rescaled")
+        wantc = np.asarray(cv).astype(declared) if declared is not None else np.asarray(cv)
+        ctx.require(np.array_equal(f.array, np.broadcast_to(wantc, (*n, nv))) and dt_ok(f.array), "C15.no_reapply",
+                    "constant value after a norm assignment is rescaled", got=f.array.reshape(-1)[:4], want=wantc)
     elif kind == "ctor":
         t = _targets(pr, rng)
-        r, f = raises(Exception, df.Field, mesh, nvdim=nv, value=old.copy(), norm=_spec(pr["form"], t, mesh), valid="norm")
+        kw = {"dtype": declared} if declared is not None else {}
+        r, f = raises(Exception, df.Field, mesh, nvdim=nv, value=old.copy(), norm=_spec(pr["form"], t, mesh, tdt), valid="norm", **kw)
+        if r and integer:
+            ctx.require(isinstance(f, (TypeError, ValueError)), "C15.dtype_kept", "constructor of an integer field with norm= raised something else than TypeError / ValueError",
+                        sig="int-norm-refusal-not-clean", error=repr(f))
+            return
         ctx.require(not r, "C15.constructor_order", "Field(value=, norm=, valid='norm') raised", sig="ctor-raises", error=repr(f) if r else None)
         if r:
             return
-        _check_after_set(ctx, f.array, old, t, "constructor/" + pr["form"])
-        g = df.Field(mesh, nvdim=nv, value=old.copy())
+        _check_after_set(ctx, f.array, stored, t, "constructor/" + pr["form"], declared)
+        g = _field(pr, mesh, old.copy())
         g.norm = t.copy()
-        ctx.require(np.array_equal(f.array, g.array), "C15.constructor_order", "constructor with norm= differs from value then setter")
+        ctx.require(np.array_equal(f.array, g.array) and f.array.dtype == g.array.dtype, "C15.constructor_order", "constructor with norm= differs from value then setter")
         wantv = np.asarray(_len_ld(f.array)[..., 0] > LD(1e-8))
-        wantv_exact = np.asarray((_len_ld(old)[..., 0] != 0) & (t[..., 0] != 0))
+        wantv_exact = np.asarray((_len_ld(stored)[..., 0] != 0) & (t[..., 0] != 0))
         ctx.require(f.valid.shape == tuple(n) and f.valid.dtype == bool and np.array_equal(f.valid, wantv) and np.array_equal(wantv, wantv_exact),
                     "C15.constructor_order", "valid='norm' is not derived from the normalised values",
-                    got=f.valid, want=wantv, before_norm=np.asarray(_len_ld(old)[..., 0] > 1e-8))
-        # callable value + norm : value evaluated first, then normalised
-        tab = old
+                    got=f.valid, want=wantv, before_norm=np.asarray(_len_ld(stored)[..., 0] > 1e-8))
+        # callable value + norm : value evaluated first, then normalised (a callable value needs dtype= for anything but float64)
+        tab = stored
 
         def vfun(p):
             idx = np.clip(np.floor((np.asarray(p, dtype=float).reshape(-1) - np.asarray(mesh.region.pmin)) / np.asarray(mesh.cell)).astype(int), 0, np.array(n) - 1)
             return tab[tuple(idx)]
         c = float(t.reshape(-1)[0]) if t.reshape(-1)[0] != 0 else 3.0
-        h = df.Field(mesh, nvdim=nv, value=vfun, norm=c)
-        _check_after_set(ctx, h.array, old, np.full((*n, 1), c), "constructor/callable value + constant norm")
-    elif kind == "threshold":
-        N = int(np.prod(n))
-        lens = np.where(rng.integers(0, 2, size=N).astype(bool), 10.0 ** rng.uniform(-100, np.log10(8e-9), size=N), 10.0 ** rng.uniform(np.log10(1.2e-8), -7, size=N))
-        d = rng.normal(size=(N, nv)).astype(LD)
-        d /= np.sqrt(np.sum(d * d, axis=1, keepdims=True))
-        v = np.asarray(d * lens[:, None].astype(LD), dtype=float).reshape(*n, nv)
-        z = rng.uniform(size=N) < 0.2
-        v.reshape(N, nv)[z] = 0.0
-        _check_orientation(ctx, df.Field(mesh, nvdim=nv, value=v.copy()), v, "threshold")
+        kw = {} if stored.dtype == np.float64 and declared is None else {"dtype": stored.dtype}
+        r, h = raises(Exception, df.Field, mesh, nvdim=nv, value=vfun, norm=c, **kw)
+        ctx.require(not r, "C15.constructor_order", "Field(value=callable, norm=constant) raised", sig="ctor-raises", error=repr(h) if r else None)
+        if not r:
+            _check_after_set(ctx, h.array, stored, np.full((*n, 1), c), "constructor/callable value + constant norm", kw.get("dtype"))
 
 
 def _check_orientation(ctx, f, v, what):
+    """v: the array the field holds"""
+    prof = _prof_of(v)
+    eps = prof["eps"]
     r, o = raises(Exception, lambda: f.orientation)
+    if r and prof["int"]:
+        # genuine defect of the unchanged library, kept as a violation under its own signature
+        ctx.require(False, "C15.orientation", "%s: orientation of an integer-dtype field raised" % what, sig="orientation-raises-int-dtype", error=repr(o), dtype=str(v.dtype))
+        return None
     ctx.require(not r, "C15.orientation", "%s: orientation raised" % what, sig="orientation-raises", error=repr(o) if r else None)
     if r:
         return None
@@ -305,21 +594,28 @@ def _check_orientation(ctx, f, v, what):
     ctx.require(ok_shape, "C15.orientation", "%s: orientation shape / nvdim / mesh" % what)
     if not ok_shape:
         return None
-    ctx.require(bool(np.all(oa[~big] == 0.0)), "C15.orientation", "%s: orientation is not zero where the length is <= 1e-8" % what,
+    ctx.require(bool(np.all(oa[~big] == 0)), "C15.orientation", "%s: orientation is not zero where the length is <= 1e-8" % what,
                 lengths=np.asarray(L[..., 0][~big], dtype=float)[:6], got=oa[~big][:3])
     with np.errstate(all="ignore"):
-        want = v.astype(LD) / L
-    ctx.require(bool(np.all(_rel_ok(oa[big], want[big], 4))), "C15.orientation", "%s: orientation differs from v/|v|" % what,
-                worst_ulps=_worst(oa[big], want[big]))
+        want = _scaled(v, LD(1) / L)
+    ctx.require(bool(np.all(_rel_ok(oa[big], want[big], 4, eps))), "C15.orientation", "%s: orientation differs from v/|v|" % what,
+                worst_ulps=_worst(oa[big], want[big], eps), dtype=str(v.dtype), got=oa[big][:2], v=v[big][:2])
     ol = _len_ld(oa)[..., 0]
-    ctx.require(bool(np.all(np.abs(ol[big] - 1) <= 4 * LD(EPS))), "C15.orientation", "%s: orientation is not of unit length" % what)
+    ctx.require(bool(np.all(np.abs(ol[big] - 1) <= 4 * LD(eps))), "C15.orientation", "%s: orientation is not of unit length" % what,
+                got=np.asarray(ol[big], dtype=float)[:4], dtype=str(v.dtype))
     return o
 
 
 def check_get(pr, ctx, mesh, old, rng):
     n, nv = list(pr["n"]), pr["nvdim"]
     mask = rng.integers(0, 2, size=tuple(n)).astype(bool) if pr["mask"] else True
-    f = df.Field(mesh, nvdim=nv, value=old.copy(), unit=pr["unit"], valid=mask)
+    f = _field(pr, mesh, old.copy(), unit=pr["unit"], valid=mask)
+    old = f.array.copy()          # the values as stored (dtype declared or inferred)
+    prof = _prof_of(old)
+    if prof is None:
+        ctx.trivial()
+        return
+    eps = prof["eps"]
     r, nf = raises(Exception, lambda: f.norm)
     ctx.require(not r, "C15.norm_values", "norm getter raised", sig="norm-getter-raises", error=repr(nf) if r else None)
     if r:
@@ -329,24 +625,33 @@ def check_get(pr, ctx, mesh, old, rng):
     if not ok_shape:
         return
     L = _len_ld(old)
-    if nv == 1:
-        ctx.require(np.array_equal(nf.array, np.abs(old)), "C15.norm_values", "norm of a scalar field is not |v|")
+    real = nf.array.dtype.kind == "f"
+    ctx.require(real, "C15.norm_real", "the norm of a %s field is not a real floating array" % old.dtype, got=str(nf.array.dtype), sample=nf.array.reshape(-1)[:4])
+    na = nf.array
+    if nv == 1 and not prof["cplx"]:
+        ctx.require(real and np.array_equal(na, np.abs(old).astype(np.float64)), "C15.norm_values", "norm of a scalar field is not |v|")
     else:
-        ctx.require(bool(np.all(_rel_ok(nf.array, L, 4))), "C15.norm_values", "norm differs from sqrt(sum v_i^2)", worst_ulps=_worst(nf.array, L))
-    ctx.require(bool(np.all(nf.array[np.asarray(L == 0)] == 0.0)) and bool(np.all(nf.array >= 0)), "C15.norm_values", "norm of a zero cell is not 0 / negative norm")
+        ctx.require(bool(np.all(_rel_ok(na, L[..., None], 4, eps))), "C15.norm_values", "norm differs from sqrt(sum |v_i|^2)", worst_ulps=_worst(na, L[..., None], eps),
+                    dtype=str(old.dtype), got=na.reshape(-1)[:4], want=np.asarray(L, dtype=float).reshape(-1)[:4])
+    with np.errstate(all="ignore"):
+        nonneg = bool(np.all(np.real(na) >= 0)) and bool(np.all(np.imag(na) == 0))
+    ctx.require(bool(np.all(na[np.asarray(L == 0)] == 0)) and nonneg, "C15.norm_real", "norm of a zero cell is not 0 / negative or non-real norm",
+                got=na.reshape(-1)[:4])
     ctx.require(nf.mesh == f.mesh and list(nf.mesh.region.dims) == list(f.mesh.region.dims) and list(nf.mesh.region.units) == list(f.mesh.region.units)
                 and np.array_equal(nf.mesh.n, f.mesh.n), "C15.norm_meta", "norm field lives on a different mesh")
     ctx.require(nf.unit == pr["unit"], "C15.norm_meta", "norm field has a different unit", got=nf.unit, want=pr["unit"])
     wantvalid = np.broadcast_to(np.asarray(mask, dtype=bool), tuple(n))
     ctx.require(np.array_equal(f.valid, wantvalid) and nf.valid.shape == tuple(n) and np.array_equal(nf.valid, wantvalid), "C15.norm_meta",
                 "norm field has a different validity mask")
-    ctx.require(np.array_equal(f.array, old), "C15.norm_values", "reading the norm changed the field")
+    ctx.require(np.array_equal(f.array, old) and f.array.dtype == old.dtype, "C15.norm_values", "reading the norm changed the field")
     o = _check_orientation(ctx, f, old, "get")
     if o is None:
         return
     r, p = raises(Exception, lambda: o * nf)
     ctx.require(not r, "C15.orientation_times_norm", "orientation * norm raised", sig="orientation-times-norm-raises", error=repr(p) if r else None)
     if not r:
-        ctx.require(p.array.shape == old.shape and bool(np.all(_rel_ok(p.array, old, 4))), "C15.orientation_times_norm",
-                    "orientation * norm does not reproduce the field", worst_ulps=_worst(p.array, old) if p.array.shape == old.shape else None)
-    ctx.require(np.array_equal(f.array, old), "C15.orientation", "reading the orientation changed the field")
+        ok = p.array.shape == old.shape
+        ctx.require(ok and bool(np.all(_rel_ok(p.array, _parts(old), 4, eps))), "C15.orientation_times_norm",
+                    "orientation * norm does not reproduce the field", worst_ulps=_worst(p.array, _parts(old), eps) if ok else None, dtype=str(old.dtype),
+                    got=p.array.reshape(-1)[:4], want=old.reshape(-1)[:4])
+    ctx.require(np.array_equal(f.array, old) and f.array.dtype == old.dtype, "C15.orientation", "reading the orientation changed the field")
